@@ -1726,6 +1726,22 @@ impl IdmServerProxyReadTransaction<'_> {
                 e
             })?;
 
+        // The validity window must be judged on the stored entry: the caller (for example a
+        // RADIUS server's service account) is usually not allowed to read the two attributes,
+        // and an unreadable window must not read as "always valid".
+        let full = self.qs_read.internal_search_uuid(rate.target)?;
+        if !Account::check_within_valid_time(
+            ct,
+            full.get_ava_single_datetime(Attribute::AccountValidFrom)
+                .as_ref(),
+            full.get_ava_single_datetime(Attribute::AccountExpire)
+                .as_ref(),
+        ) {
+            return Err(OperationError::InvalidAccountState(
+                "Account Expired".to_string(),
+            ));
+        }
+
         account.to_radiusauthtoken(ct)
     }
 
